@@ -56,7 +56,7 @@ ADS_SUPER = [("N2", 298.15), ("CH4", 303.0), ("H2", 77.0), ("Ar", 200.0)]
 
 
 def tier_runs(tier):
-    return 12000 if tier == "quick" else 400000
+    return 12000 if tier == "quick" else 300000
 
 
 def tier_budget_s(tier):
@@ -136,7 +136,12 @@ def gen_world(rng, index):
                 p.append(p[src] * rng.uniform(0.96, 0.999))
                 l.append(l[src] * rng.uniform(1.001, 1.2))
     npts = len(p)
+    has_nan = (not integer_data) and rng.random() < 0.08
+    if has_nan:
+        l[rng.randrange(npts)] = float("nan")          # a missing reading: stays missing, the other points convert
     bsel = rng.choices(["guess", "ads", "des", "list"], [50, 20, 10, 20])[0]
+    if has_nan and bsel == "guess":
+        bsel = "ads"
     branch = bsel
     if bsel == "list":
         k = rng.randint(0, npts)
@@ -678,19 +683,20 @@ class Oracle:
 
 def _apply(iso, op):
     o = op["op"]
+    v = {"verbose": True} if op.get("verbose") else {}     # the logger is silenced; only the code path differs
     if o == "convert_pressure":
-        iso.convert_pressure(mode_to=op["mode_to"], unit_to=op["unit_to"])
+        iso.convert_pressure(mode_to=op["mode_to"], unit_to=op["unit_to"], **v)
     elif o == "convert_loading":
-        iso.convert_loading(basis_to=op["basis_to"], unit_to=op["unit_to"])
+        iso.convert_loading(basis_to=op["basis_to"], unit_to=op["unit_to"], **v)
     elif o == "convert_material":
-        iso.convert_material(basis_to=op["basis_to"], unit_to=op["unit_to"])
+        iso.convert_material(basis_to=op["basis_to"], unit_to=op["unit_to"], **v)
     elif o == "convert_temperature":
-        iso.convert_temperature(op["unit_to"])
+        iso.convert_temperature(op["unit_to"], **v)
     elif o == "convert":
-        iso.convert(**op["kw"])
+        iso.convert(**op["kw"], **v)
     elif o == "return":
-        iso.convert(**op["kw"])
-        iso.convert_temperature(op["temperature_unit"])
+        iso.convert(**op["kw"], **v)
+        iso.convert_temperature(op["temperature_unit"], **v)
     elif o == "observe":
         ads = iso.data(branch="ads")
         if len(ads) >= 2:
@@ -768,6 +774,8 @@ def execute(world, consts, rs=None, ops=None, n_ops=None):
                 op = gen_op(rng, expected[k])
             if k:
                 op["i"] = k
+            if rng.random() < 0.12:
+                op["verbose"] = True
         step += 1
         k = op.get("i", 0) if op.get("i", 0) < n_iso else 0
         iso, orc, start = isos[k], orcs[k], starts[k]
@@ -884,10 +892,49 @@ def all_consts(ctx, world):
     return out
 
 
+def _plain(world):
+    """The same unit configuration, temperature, adsorbate and material with the plainest possible data."""
+    w = copy.deepcopy(world)
+    w.pop("sibling", None)
+    w.pop("decoy_material", None)
+    iso = w["iso"]
+    n = len(iso["pressure"])
+    iso.update(pressure=[0.5 * (i + 1) for i in range(n)], loading=[0.25 * (i + 1) for i in range(n)], branch="ads",
+               other={}, meta={}, route="arrays")
+    for k in ("index", "keys", "branch_in_frame"):
+        iso.pop(k, None)
+    return w
+
+
+def _try_build(world):
+    from sim.worlds import build
+    build.register_world({"adsorbates": world["adsorbates"]})
+    try:
+        build.make_isotherm(world["iso"])
+        return {"ok": True}
+    except Exception as e:
+        return {"ok": False, "error": dg.canon_error(e)}
+
+
 def run(ctx, index):
     rs = ctx.rs(index)
     rng = random.Random(rs)
     world = gen_world(rng, index)
+    probe = fork_call(_try_build, (world,), timeout=60)["result"]
+    if probe is not None and not probe["ok"]:
+        # the constructor refuses the generated isotherm.  If it also refuses the plainest isotherm of the same unit
+        # configuration / temperature, a valid start representation is not constructible: that is reportable.
+        plain = fork_call(_try_build, (_plain(world),), timeout=60)["result"]
+        if plain is not None and not plain["ok"]:
+            lab = world["iso"]["units"]
+            v = {"kind": "C02/valid-start-refused",
+                 "signature": f"C02/valid-start-refused error={plain['error'][1]} temperature_unit={lab['temperature_unit']!r}",
+                 "detail": {"units": lab, "temperature": world["iso"]["temperature"], "error": plain["error"]},
+                 "replay": {"world": _plain(world), "ops": []}}
+            return {"digest": dg.sha(["unbuildable", plain["error"]]), "counters": {"world-refused-by-constructor": 1},
+                    "sets": {}, "violations": [v]}
+        return {"digest": dg.sha(["skipped", probe["error"]]), "counters": {"world-skipped-unusual-data-refused": 1},
+                "sets": {}, "violations": []}
     consts = all_consts(ctx, world)
     keep = index < 3
     out = fork_call(_child_run, (world, consts, rs ^ 0x5DEECE66D, keep), timeout=120)
@@ -909,6 +956,12 @@ def run(ctx, index):
 
 def replay(ctx, rep):
     world = rep["world"]
+    probe = fork_call(_try_build, (world,), timeout=60)["result"]
+    if probe is not None and not probe["ok"]:
+        lab = world["iso"]["units"]
+        return {"kind": "C02/valid-start-refused",
+                "signature": f"C02/valid-start-refused error={probe['error'][1]} temperature_unit={lab['temperature_unit']!r}",
+                "detail": {"units": lab, "error": probe["error"]}}
     consts = all_consts(ctx, world)
     out = fork_call(_child_replay, (world, consts, rep["ops"]), timeout=120)
     if out["result"] is None:
@@ -948,6 +1001,8 @@ def _simplify_worlds(world):
 def minimise(ctx, rep):
     sig = rep["signature"]
     world = rep["world"]
+    if not rep["ops"] and rep.get("kind") == "C02/valid-start-refused":
+        return rep, {"note": "nothing to minimise: the start isotherm cannot be built"}
     tests = [0]
 
     def fails(w, ops):
